@@ -235,6 +235,17 @@ func (e *End) deliver(p []byte) error {
 	return nil
 }
 
+// CloseWrite half-closes this end (like TCP shutdown(SHUT_WR)): the peer drains what was written
+// and then reads EOF, while this end keeps reading what the peer writes and the peer's writes
+// keep succeeding.
+func (e *End) CloseWrite() {
+	e.out.mu.Lock()
+	e.out.wclosed = true
+	e.out.cond.Broadcast()
+	e.out.mu.Unlock()
+	e.bump()
+}
+
 // Close closes this end: local reads fail, the peer drains then sees EOF, peer writes fail.
 func (e *End) Close() error {
 	e.mu.Lock()
